@@ -23,12 +23,12 @@ const (
 
 // Obligation is one decided instance of a rule.
 type Obligation struct {
-	Rule     string `json:"rule"`     // e.g. "L2"
-	Key      string `json:"key"`      // line-free identity: rule + construct
-	Pos      string `json:"pos"`      // file:line (informational)
-	Status   Status `json:"status"`   //
-	Detail   string `json:"detail"`   // what was established / what is wrong
-	Trivial  bool   `json:"-"`        // vacuous obligation (not counted as non-trivial)
+	Rule     string `json:"rule"`   // e.g. "L2"
+	Key      string `json:"key"`    // line-free identity: rule + construct
+	Pos      string `json:"pos"`    // file:line (informational)
+	Status   Status `json:"status"` //
+	Detail   string `json:"detail"` // what was established / what is wrong
+	Trivial  bool   `json:"-"`      // vacuous obligation (not counted as non-trivial)
 	KnownRef string `json:"known,omitempty"`
 }
 
